@@ -10,6 +10,7 @@ import Driver.Ev
 import Driver.Cfg
 import Driver.Isect
 import Driver.Heap
+import Driver.Unov
 /-! Model driver: one request per line on stdin, one answer per line on stdout.
     Pure areas answer from the request alone; `store` threads the backend states. -/
 open Drv
@@ -30,6 +31,7 @@ def dispatch (st : State) (line : String) : State × String :=
   | "cfg" :: r => (st, Cfg.handle r)
   | "isect" :: r => (st, Isect.handle r)
   | "punion" :: r => (st, Isect.handleUnion r)
+  | "unov" :: r => (st, Unov.handle r)
   | "commit" :: r => let (c', out) := Commit.handle st.commit r; ({ st with commit := c' }, out)
   | "heap" :: r => let (h', out) := HeapArea.handle st.heap r; ({ st with heap := h' }, out)
   | "store" :: r => let (s', out) := Store.handle st.store r; ({ st with store := s' }, out)
